@@ -5,6 +5,8 @@ import (
 	"bytes"
 	"errors"
 	"fmt"
+	"io"
+	"log/slog"
 	"math/rand"
 	"runtime"
 	"time"
@@ -19,6 +21,8 @@ import (
 
 // watchdog for waiting on other goroutines; its firing is "inconclusive", never a violation.
 const watchdog = 20 * time.Second
+
+var quietLog = slog.New(slog.NewTextHandler(io.Discard, nil))
 
 type optClass struct {
 	Mem, WAL, Target uint64
@@ -51,6 +55,7 @@ type ckpt struct {
 	state    string
 	retained bool
 	restores int
+	owner    *dkv.DB // the database whose checkpoint list holds it
 }
 
 type env struct {
@@ -74,6 +79,7 @@ type env struct {
 
 	// structural coverage
 	rotations  int
+	chain      int
 	parked     int
 	needParked bool
 }
@@ -82,6 +88,7 @@ func newEnv(c *lib.Ctx, nkeys int, yieldP int) *env {
 	r := c.R
 	e := &env{c: c, r: r, o: pickOpts(r), model: lib.NewRefMap(), vg: &lib.ValueGen{Writer: "d"}, nextCkpt: uint64(1 + r.Intn(3))}
 	e.keys = lib.KeyUniverse(r, nkeys, 3)
+	c.OnPanic = func() any { return e.wit("fs_log_tail", fmtLog(e.gfs.Log(), e.gfs.LogLen()-40, e.gfs.LogLen())) }
 	e.prefixes = lib.Prefixes(e.keys)
 	vhook.SetTuning(&vhook.TuningValues{TuneCompactor: true, MaxSizeAmplificationPercent: e.o.Amp, SmallestLevelSize: e.o.Smallest, LevelSizeMultiplier: e.o.Mult})
 	if e.o.Local {
@@ -112,7 +119,7 @@ func (e *env) fsView(sameDir bool) (*lib.GateFS, string) {
 }
 
 func (e *env) dbOpts(fs storage.FileSystem) dkv.DBOptions {
-	return dkv.DBOptions{FileSystem: fs, MemTableSize: e.o.Mem, MaxWALSize: e.o.WAL, TargetFileSize: e.o.Target, L0TableNumCompactionTrigger: e.o.L0}
+	return dkv.DBOptions{Logger: quietLog, FileSystem: fs, MemTableSize: e.o.Mem, MaxWALSize: e.o.WAL, TargetFileSize: e.o.Target, L0TableNumCompactionTrigger: e.o.L0}
 }
 
 func (e *env) open(fs storage.FileSystem, hs []recovery.CheckpointHandle) *dkv.DB {
@@ -126,6 +133,17 @@ func (e *env) close() {
 	select {
 	case <-done:
 	case <-time.After(watchdog):
+	}
+	// nothing may outlive the case: drain the tasks of every database it created
+	for _, p := range e.pinned {
+		if db, ok := p.(*dkv.DB); ok {
+			d := make(chan error, 1)
+			go func() { d <- db.WaitOnTasks() }()
+			select {
+			case <-d:
+			case <-time.After(watchdog):
+			}
+		}
 	}
 	e.sched.Uninstall()
 	vhook.SetTuning(nil)
@@ -146,6 +164,7 @@ func (e *env) wit(extra ...any) map[string]any {
 
 func (e *env) logOp(format string, a ...any) {
 	e.ops = append(e.ops, fmt.Sprintf(format, a...))
+	e.c.Logf("op %d: %s", len(e.ops), e.ops[len(e.ops)-1])
 }
 
 // ---- foreground operations on the primary db, each followed by its oracle
